@@ -77,6 +77,7 @@ func runC07(c *Ctx) {
 	c07ForOrder(c, es)
 	c07IfElse(c, es)
 	c07Return(c, es)
+	c.shared("R7", "C02/R3", "next and exit are consumed exactly by the rule drivers: every test against errNext / errExit sits in a driver, so a `next` leaves the current rule list and an `exit` the run from any nesting of statements", nil, c02R3)
 	mapRangeOrder(c, "R5")
 	c07ForIn(c, es)
 	c07Dispatch(c)
